@@ -97,6 +97,16 @@ v('C07', 'fire', KA, 'cho_solve((L, True), HP', 'cho_solve((L, False), HP')
 v('C07', 'fire', KA, 'S = HP @ H.T + R', 'S = HP @ H.T')
 v('C07 C19', 'fire', KA, 'K = cho_solve((L, True), HP, overwrite_b=True).T', 'K = cho_solve((L, True), P, overwrite_b=True).T')
 v('C07', 'silent', KA, 'U = np.eye(len(x)) - K.dot(H)', 'U = np.identity(len(x)) - K @ H')
+_CI_OLD = ["        self.transform = np.identity(3)\n        self.bias = np.zeros(3)\n\n    @staticmethod",
+           "                self.transform[axis_out, axis_in] += xi\n",
+           "        corrected = np.linalg.solve(self.transform,\n                                    (increments.values - self.bias * dt).T).T"]
+_CI_NEW = ["        self.transform = np.identity(3)\n        self.bias = np.zeros(3)\n        self._transform_inv = np.identity(3)\n\n    @staticmethod",
+           "                self.transform[axis_out, axis_in] += xi\n        self._transform_inv = np.linalg.inv(self.transform)\n",
+           "        corrected = (increments.values - self.bias * dt) @ self._transform_inv.T"]
+v('C19 C12 C14', 'fire', 'inertial_sensor.py', _CI_OLD, _CI_NEW, 'seeded C19 round 3 (in kind): cached inverse of the transform that reset_estimates does not refresh')
+v('C19 C12 C14', 'silent', 'inertial_sensor.py', _CI_OLD + ["    def reset_estimates(self):\n        self.transform = np.identity(3)\n        self.bias = np.zeros(3)\n"], _CI_NEW + ["    def reset_estimates(self):\n        self.transform = np.identity(3)\n        self.bias = np.zeros(3)\n        self._transform_inv = np.identity(3)\n"], 'cached inverse kept consistent by every writer')
+v('C14 C12', 'fire', 'inertial_sensor.py', "        corrected = np.linalg.solve(self.transform,\n                                    (increments.values - self.bias * dt).T).T", "        corrected = np.linalg.solve(self.transform.T,\n                                    (increments.values - self.bias * dt).T).T", 'correction solves with the transposed transform')
+v('C14 C12', 'silent', 'inertial_sensor.py', "        corrected = np.linalg.solve(self.transform,\n                                    (increments.values - self.bias * dt).T).T", "        corrected = (increments.values - self.bias * dt) @ np.linalg.inv(self.transform).T", 'explicit inverse, same correction')
 v('C08 C11 C12', 'fire', 'filters.py', "    G = np.zeros((n_states, n_noises))\n", "    if n_noises == 0:\n        return np.identity(n_states) + F * time_delta, np.zeros((n_states, n_states))\n\n    G = np.zeros((n_states, n_noises))\n", 'seeded C08 round 3: first-order shortcut when no noise is modelled')
 v('C08', 'fire', KA, "    n = len(F)\n", "    n = len(F)\n    if not np.any(Q):\n        return np.identity(n) + F * dt, np.zeros((n, n))\n", 'first-order shortcut inside compute_process_matrices')
 _DS_OLD = """        rn, _, rp = earth.principal_radii(0.5 * (first.lat + second.lat),
